@@ -70,6 +70,8 @@ def solution_calls(fi):
 
 
 def check(prog, rep):
+    from . import pitfalls as _pit
+    rep.section(_pit.report, prog, rep, 'R07.P', ['src/optyx/solution.py'], ('P1', 'P3'))
     bcs = backend_calls(prog)
     if not bcs:
         raise AnalysisError("no backend call sites")
